@@ -286,7 +286,7 @@ func init() {
 		}
 		defer env.close()
 		rng := newRand(18)
-		for i := 0; i < tierN(150, 6000); i++ {
+		for i := 0; i < tierN(150, 6000) && !expired(); i++ {
 			c18Case(r, env, rng, i)
 		}
 		r.Validated = r.Evaluations
